@@ -86,6 +86,7 @@ fn c13_address_sweep(tier: Tier) -> Vec<J> {
                     script,
                     transport: Transport::Arg,
                     sep_seed: 0,
+                    input: Vec::new(),
                 }
                 .to_json(),
             );
@@ -115,6 +116,11 @@ pub fn shrink_debug(scn: &DebugScenario) -> Vec<DebugScenario> {
     if scn.sep_seed != 0 {
         let mut s = scn.clone();
         s.sep_seed = 0;
+        out.push(s);
+    }
+    for input in scn::shrink_list(&scn.input) {
+        let mut s = scn.clone();
+        s.input = input;
         out.push(s);
     }
     if !scn.minimal {
@@ -150,10 +156,13 @@ impl DebugCheck {
         let mut rng = Rng::new(run_seed(seed, self.id, index));
         let minimal = rng.chance(2, 3);
         let stack = rng.coin();
+        // Programs may read input only when the script cannot: all of it in --command, ending
+        // with an explicit quit/exit (decided below, the generator needs to know now)
+        let with_input = rng.chance(1, 5);
         let opts = GenOpts {
             stack,
             minimal,
-            allow_input: false,
+            allow_input: with_input,
             allow_exception_endings: rng.below(100) < self.exception_endings_pct,
             allow_breaks: rng.below(100) < self.breaks_pct,
             max_blocks: 1 + rng.usize_below(6),
@@ -162,16 +171,43 @@ impl DebugCheck {
         let program = gen::generate(&mut rng, &opts);
         let mix = (self.mix)();
         let ctx = Ctx::new(&program, stack, minimal);
-        let end = match rng.below(10) {
-            0..=4 => EndStyle::Eof,
-            5..=7 => EndStyle::Quit,
-            _ => EndStyle::Exit,
+        let end = if with_input {
+            if rng.chance(3, 4) {
+                EndStyle::Quit
+            } else {
+                EndStyle::Exit
+            }
+        } else {
+            match rng.below(10) {
+                0..=4 => EndStyle::Eof,
+                5..=7 => EndStyle::Quit,
+                _ => EndStyle::Exit,
+            }
         };
         let script = gen_script(&mut rng, &ctx, &mix, self.max_script, end);
-        let transport = match rng.below(10) {
-            0..=4 => Transport::Arg,
-            5..=7 => Transport::Stdin,
-            _ => Transport::Split(rng.usize_below(script.len() + 1)),
+        let transport = if with_input {
+            Transport::Arg
+        } else {
+            match rng.below(20) {
+                0..=8 => Transport::Arg,
+                9..=14 => Transport::Stdin,
+                15..=17 => Transport::Split(rng.usize_below(script.len() + 1)),
+                // Typed on the simulated terminal (which has no end of input)
+                _ if end != EndStyle::Eof => Transport::Terminal,
+                _ => Transport::Stdin,
+            }
+        };
+        let input: Vec<u8> = if with_input {
+            let n = rng.usize_below(8);
+            (0..n)
+                .map(|_| match rng.below(8) {
+                    0 => 0x80 + rng.below(0x80) as u8,
+                    1 => b'\n',
+                    _ => 0x20 + rng.below(0x5f) as u8,
+                })
+                .collect()
+        } else {
+            Vec::new()
         };
         let sep_seed = if rng.chance(1, 4) { 0 } else { rng.next_u64() | 1 };
         DebugScenario {
@@ -181,6 +217,7 @@ impl DebugCheck {
             script,
             transport,
             sep_seed,
+            input,
         }
     }
 }
@@ -212,6 +249,9 @@ pub fn session_report(id: &str, cap: &Capture, scenario: &DebugScenario) -> Repo
     }
     if !scenario.script.iter().any(|i| matches!(i.cmd, Cmd::Quit | Cmd::Exit)) {
         report.hit("fault:eof_script");
+    }
+    if scenario.input_is_deliverable() && scenario.program.uses_input {
+        report.hit("probe:program_reads_input_under_debugger");
     }
     if scenario.sep_seed != 0 {
         report.hit("fault:separator_mix");
